@@ -567,6 +567,8 @@ func (r *Runner) Finish(tier, outPath, replayDir string) int {
 			suffix = " no-failing-input-found"
 		}
 		fmt.Fprintf(realOut, "VIOLATION property=%s replay=%s%s\n", st.Property, p, suffix)
+		// a short description for logs that outlive the replay file
+		fmt.Fprintf(realOut, "  detail: kind=%s op=%s index=%d impl=%.300s | model=%.300s\n", v.Kind, v.Op, v.Index, canon(v.ImplOut), canon(v.ModelOut))
 		res.Violations = append(res.Violations, v)
 		code = 1
 	}
